@@ -109,8 +109,10 @@ class Ctx:
         label = label or cfg
         meta = os.path.join(self.work, "meta-%s-%d" % (re.sub(r'\W', '_', label), len(self.tlc_stats)))
         workers = min(workers or self.cores, self.cores, 16)
+        jtmp = os.path.join(self.work, "jtmp")     # TLC leaves an empty tlc-<n> directory per run in java.io.tmpdir
+        os.makedirs(jtmp, exist_ok=True)
         cmd = ["java", "-XX:+UseParallelGC", "-XX:ParallelGCThreads=%d" % max(1, min(4, workers)),
-               "-Xmx" + heap, "-Xss64m"]
+               "-Xmx" + heap, "-Xss64m", "-Djava.io.tmpdir=" + jtmp]
         if deque:
             cmd.append("-Dtlc2.tool.queue.IStateQueue=StateDeque")
         cmd += ["-cp", JAR, "tlc2.TLC", "-noGenerateSpecTE", "-metadir", meta,
